@@ -126,5 +126,8 @@ Progress == TLCSet(tid, <<l - 1, fails>>)
 Post == \A i \in 1..Len(Traces) :
           LET r == TLCGet(i) IN
           /\ (r[1] # Len(Traces[i].steps) => PrintT(<<"INCOMPLETE", Traces[i].id, r[1]>>))
+          /\ (Traces[i].teardown # "" =>
+                PrintT(<<"FAIL", Traces[i].id, [line |-> 0, clause |-> "Quiescent:cannot-restore", who |-> Traces[i].teardown, nonlifo |-> FALSE,
+                                                incall |-> FALSE, lraised |-> FALSE, op |-> "end", mech |-> FALSE]>>))
           /\ \A k \in DOMAIN r[2] : PrintT(<<"FAIL", Traces[i].id, r[2][k]>>)
 =============================================================================
